@@ -259,6 +259,8 @@ class World:
                     mask = np.ones(got.shape, dtype=bool)
                     mask[sl] = False
                     ok = (not mask.any() or np.array_equal(got[mask], t.before[mask])) and P.compare(got[sl], v) is None
+                elif t.sink["cls"] == "existing-dtype":
+                    ok = got.shape == exp.shape and np.array_equal(got, exp, equal_nan=got.dtype.kind in "fc")  # values as cast to the target's dtype
                 else:
                     ok = P.compare(got, v) is None
                 if not ok:
@@ -361,7 +363,7 @@ def make_machine(max_steps, collected, opts):
         @precondition(lambda self: len(self.w.pool) > 0)
         @rule(data=st.data())
         def store(self, data):
-            cls = data.draw(st.sampled_from(["fresh", "fresh", "group", "existing-same", "existing-diff", "region-aligned"]))
+            cls = data.draw(st.sampled_from(["fresh", "fresh", "group", "existing-same", "existing-diff", "region-aligned", "existing-dtype"]))
             i = data.draw(st.integers(0, 50)) % len(self.w.pool)
             v = np.asarray(self.w.vals[i].v)
             sink = {"cls": cls, "api": data.draw(st.sampled_from(["store", "to_zarr"]))}
@@ -371,6 +373,11 @@ def make_machine(max_steps, collected, opts):
                 sink.update(before=[data.draw(st.integers(0, 2)) for _ in range(v.ndim)], after=[data.draw(st.integers(0, 1)) for _ in range(v.ndim)], explicit_full=False)
             if sink["cls"] == "existing-diff":
                 sink["tchunks"] = [data.draw(st.sampled_from([1, 2, 3, 5])) for _ in range(v.ndim)]
+            if sink["cls"] == "existing-dtype":
+                if v.dtype.kind == "c" and v.dtype.itemsize == 16:
+                    sink["cls"] = "existing-same"
+                else:
+                    sink["lossy"] = bool(v.dtype.kind == "f" and v.size > 0 and np.isfinite(v).all() and np.abs(v).max() < 2**30 and data.draw(st.booleans()))
             self._apply({"op": "store", "id": i, "sink": sink, "eager": data.draw(st.booleans()), "executor": data.draw(st.sampled_from(EXECS[:3])), "seed": data.draw(st.integers(0, 999))}, data)
 
         @precondition(lambda self: any(s["op"] == "store" for s in self.w.steps))
